@@ -1,5 +1,6 @@
 import ScenicModel.Props.C17Angles
 import ScenicModel.Props.C17Flat
+import ScenicModel.Props.C17Prune
 import ScenicModel.Gen.Visibility
 
 /-!
